@@ -15,7 +15,7 @@ use crate::vmcanon;
 use crate::Ctx;
 use xeh::prelude::*;
 
-fn snapshot(xs: &mut Xstate) -> String {
+pub fn snapshot(xs: &mut Xstate) -> String {
     let d = xs.verif_dump();
     // host objects (the d2 canvas) are observable only through their own words: read two pixels on a throw-away copy
     let host = if xs.word_list().iter().any(|w| w.as_str() == "d2-data") {
